@@ -4,6 +4,7 @@
   the 8 x 4 x 4 x 2 x 3 table of the quantifier is the case split inside the proofs.
 -/
 import PysamlModel.Proofs.Sp
+import PysamlModel.Proofs.SpComplete
 import PysamlModel.Props.C04
 import PysamlModel.Gen.SpDefaults
 
@@ -116,14 +117,117 @@ theorem C01_model_meets_spec_sound (o : SigOpts) (cfg : Cfg) (env : Env) (r : Re
   | rejected e => simp [Outcome.isIdentity]
   | identity rep => simp [Outcome.isIdentity, C01_sound hres]
 
-/-- Completeness half, FULL statement (not proved at this revision; decided on the complete table
-    by the correspondence run, see DESIGN.md): a Response that satisfies the options and is otherwise
-    valid — its fully signed copy is accepted — is accepted, plain or encrypted. -/
-def C01_complete_full : Prop :=
-  ∀ (cfg : Cfg) (env : Env) (r : Response),
-    (process cfg env (allSigned r)).isIdentity = true →
-    sigPolicyOk cfg.wantResp cfg.wantAssert cfg.wantEither r = true →
-    (process cfg env r).isIdentity = true
+/-- C01, completeness: a Response that satisfies the options and is otherwise valid — its fully
+    signed copy is accepted — is accepted, whether its assertion is sent in clear or encrypted; for
+    every configuration, clock and message content. -/
+theorem C01_complete (cfg : Cfg) (env : Env) (r : Response)
+    (hvalid : (process cfg env (allSigned r)).isIdentity = true)
+    (hpol : sigPolicyOk cfg.wantResp cfg.wantAssert cfg.wantEither r = true) :
+    (process cfg env r).isIdentity = true := by
+  -- the fully signed copy
+  cases hres : process cfg env (allSigned r) with
+  | noIdentity => rw [hres] at hvalid; cases hvalid
+  | rejected e => rw [hres] at hvalid; cases hvalid
+  | identity o' =>
+    obtain ⟨hb, cf, rS', rs', p', aS', hp1, _, hv', _, _, _, a', rest', s, srest, hused', hauthn', _⟩ :=
+      process_identity_inv hres
+    -- the policy
+    unfold sigPolicyOk at hpol
+    simp only [Bool.and_eq_true, Bool.or_eq_true, Bool.not_eq_true'] at hpol
+    obtain ⟨⟨⟨⟨hrsig, hvis⟩, hwr⟩, hwa⟩, hwe⟩ := hpol
+    have hvis' : ∀ a ∈ visible r, sigOk a.sig = true := List.all_eq_true.mp hvis
+    have hwr' : cfg.wantResp = true → r.sig = .valid := by
+      intro h; rcases hwr with h1 | h1
+      · rw [h] at h1; cases h1
+      · simpa using h1
+    have hp1r := pass1_complete hp1 hrsig hwr'
+    -- verify on the copy
+    obtain ⟨henv', hpa'⟩ := verify_some_inv hv'
+    have henv : verifyEnvelope cfg env r = .ok true := by rw [← verifyEnvelope_allSigned]; exact henv'
+    obtain ⟨hlax, hforcedOk, hforcedMiss⟩ := parseAssertion_complete hpa' hvis'
+    let p : Parsed := { st := p'.st, used := decOf r ++ plainOf r, encLeft := p'.encLeft }
+    -- the used list has the same shape
+    obtain ⟨_, _, _, hu', _, _⟩ := parseAssertion_inv hpa'
+    rw [decOf_allSigned, plainOf_allSigned, ← List.map_append] at hu'
+    rw [hu'] at hused'
+    have hshape : ∃ a rest, decOf r ++ plainOf r = a :: rest ∧ a.authn = s :: srest := by
+      cases hl : decOf r ++ plainOf r with
+      | nil => rw [hl] at hused'; cases hused'
+      | cons a rest =>
+        rw [hl] at hused'
+        simp only [List.map_cons, List.cons.injEq] at hused'
+        refine ⟨a, rest, rfl, ?_⟩
+        have : (setValid a).authn = a.authn := rfl
+        rw [← this, hused'.1]; exact hauthn'
+    obtain ⟨a, rest, hl, hauthn⟩ := hshape
+    -- pass 2 on the original
+    have hpass2 : ∃ aS, pass2 cfg env { cameFrom := cf } r = .ok (some p, aS) ∧
+        (aS = false → ∃ b ∈ visible r, b.sig ≠ .valid) := by
+      by_cases hall : ∀ b ∈ visible r, b.sig = .valid
+      · refine ⟨true, ?_, fun h => by cases h⟩
+        unfold pass2 verify
+        rw [henv, hforcedOk hall]
+      · have hex : ∃ b ∈ visible r, b.sig ≠ .valid := by
+          apply Classical.byContradiction
+          intro hne
+          apply hall
+          intro b hb
+          apply Classical.byContradiction
+          intro hbv
+          exact hne ⟨b, hb, hbv⟩
+        refine ⟨false, ?_, fun _ => hex⟩
+        have hwa' : cfg.wantAssert = false := by
+          rcases hwa with h1 | h1
+          · exact h1
+          · exact absurd (fun b hb => by simpa using List.all_eq_true.mp h1 b hb) hall
+        unfold pass2
+        have hv1 : verify cfg env true { cameFrom := cf } r = .error .sigMissingAssertion := by
+          unfold verify; rw [henv, hforcedMiss hex]
+        have hv2 : verify cfg env false { cameFrom := cf } r = .ok (some p) := by
+          unfold verify; rw [henv, hlax]
+        rw [hv1]
+        simp only [Err.isSignatureError, if_true, hwa', Bool.false_eq_true, if_false, hv2]
+    obtain ⟨aS, hp2, haS⟩ := hpass2
+    -- put it together
+    unfold process
+    simp only [hb, Bool.not_true, Bool.false_eq_true, if_false, hp1r, hp2]
+    have heither : (cfg.wantEither && !decide (r.sig = .valid) && !aS) = false := by
+      cases hwe' : cfg.wantEither with
+      | false => simp
+      | true =>
+        rcases hwe with (h1 | h1) | h1
+        · rw [hwe'] at h1; cases h1
+        · have : r.sig = .valid := by simpa using h1
+          simp [this]
+        · cases haSv : aS with
+          | true => simp
+          | false =>
+            obtain ⟨b, hb', hbv⟩ := haS haSv
+            have := List.all_eq_true.mp h1 b hb'
+            exact absurd (by simpa using this) hbv
+    rw [heither]
+    simp only [Bool.false_eq_true, if_false]
+    show (match p.used with
+      | [] => Outcome.noIdentity
+      | a :: _ => _).isIdentity = true
+    have hpu : p.used = a :: rest := hl
+    rw [hpu]
+    simp only [hauthn, Outcome.isIdentity]
+
+/-- Both halves of the decidable specification hold of the model for a configuration whose options
+    were resolved with the property's defaults. -/
+theorem C01_model_meets_spec_complete (o : SigOpts) (cfg : Cfg) (env : Env) (r : Response)
+    (hcfg : (cfg.wantResp, cfg.wantAssert, cfg.wantEither) = o.resolve true false false) :
+    specC01Complete o cfg env r (process cfg env r) = true := by
+  unfold specC01Complete
+  rw [← hcfg]
+  simp only
+  cases hv : (process cfg env (allSigned r)).isIdentity with
+  | false => simp
+  | true =>
+    cases hp : sigPolicyOk cfg.wantResp cfg.wantAssert cfg.wantEither r with
+    | false => simp
+    | true => simp [C01_complete cfg env r hv hp]
 
 /-! Non-vacuity: the table's interesting cells on a concrete message. -/
 private def okAssertion (s : Sig) (enc : Bool) : Assertion :=
